@@ -386,11 +386,28 @@ def handleCollector (j : Json) : IO Unit := do
   let rowsOk := (jarr (jget impl "final_rows")).all (fun r => let (a, b, c) := stats3 r; conserved a b c)
   emit case true rowsOk tag (if rowsOk then "" else "collector-not-conserved") (if rowsOk then "" else s!"per-endpoint records at the end: {(jget impl "final_rows").compress}")
 
+/-- kind "breaker-gauge": one request held in flight while other requests fail at the same endpoint and, on the olla
+    engine, are finally skipped by its breaker: the gauge is the number of attempts in flight (clause gauge = in flight),
+    1 throughout and 0 at rest. -/
+def handleBreakerGauge (j : Json) : IO Unit := do
+  let case := jnat (jget j "case")
+  let impl := jget j "impl"
+  if jstr (jget impl "start_err") != "" then
+    emit case false true "start-error" "" (jstr (jget impl "start_err")); return
+  if !(jbool (jget impl "held_arrived")) || jnat (jget impl "first_status") != 200 then
+    emit case true true "trivial" "" "the held request did not reach the backend in time; not judged"; return
+  let mids := jintList (jget impl "gauge_after_each_other_request")
+  let ok := jintList (jget impl "gauge_while_held" |> fun x => Json.arr #[x]) == [1] && mids.all (· == 1) && (jintList (Json.arr #[jget impl "gauge_at_rest"])) == [0]
+  emit case ok ok s!"breaker-gauge.{jstr (jget j "engine")}" (if ok then "" else "gauge-differs-from-in-flight")
+    (if ok then "" else s!"{jstr (jget j "engine")}: one request held at the backend, {jnat (jget impl "failed_round_trips")} further requests failed at the same endpoint and the last was not sent: gauge while only the held one was in flight {(jget impl "gauge_while_held").compress}, after each of the others {mids}, at rest {(jget impl "gauge_at_rest").compress}")
+
 def handle (vs : Variants) (j : Json) : IO Unit := do
   if jstr (jget j "kind") == "collector-history" then
     handleCollector j; return
   if jstr (jget j "kind") == "bursts" then
     handleBursts j; return
+  if jstr (jget j "kind") == "breaker-gauge" then
+    handleBreakerGauge j; return
   if jstr (jget j "kind") == "methods" then
     handleMethods j; return
   if jstr (jget j "kind") == "history" then
